@@ -6,7 +6,9 @@
 
   * A `TxDelta` is seen through its settlement day and its `capital_gain`.
   * `HashMap<i32, Decimal>` is a total function plus its key list (`CG.years`); the walk over
-    `sec_gains.values()` takes the order `σ`, the walk over each security's year map the order `ρ`.
+    `sec_gains` takes the order `σ` (since the fix for F-09e the code sorts the securities by name
+    first, i.e. uses one particular `σ`; the theorems hold for every `σ`), the walk over each
+    security's year map the order `ρ`.
   Core Lean only.
 -/
 import AcbModel.Basic.Num
